@@ -10,6 +10,15 @@ Theorem C05_incremental_upload : forcedTransferEncoding = ["chunked"%string] /\ 
 Proof. split; [reflexivity|split; reflexivity]. Qed.
 Print Assumptions C05_incremental_upload.
 
+(* nothing in the agent puts a deadline, a size limit or a socket option on the way of a response (or a request): the only
+   time limits set are the proxy-facing client's -proxy-timeout and the lifetime of session cookies.  The pipeline model below
+   has no stage that aborts or withholds by itself; this is where that is checked against the source. *)
+Theorem C05_no_agent_deadlines :
+  agentLimitCalls = [] /\
+  agentTimeoutFields = ["agent runAdapter: client.Timeout = *proxyTimeout"; "agent/sessions NewCache: Cache{sessionCookieTimeout}"]%string.
+Proof. split; reflexivity. Qed.
+Print Assumptions C05_no_agent_deadlines.
+
 (* For every number of stages, every chunk sequence and every interleaving: whenever nothing
    can move any more, no stage retains anything and the proxy has observed, in order, every
    chunk the backend has written so far.  A backend that continues only after the proxy has
